@@ -36,6 +36,11 @@ def run(tier):
                 "pairs are proved inverse elsewhere (C18.c/d, C08.c); slot tables are extracted by interpreting the small "
                 "packing functions on symbolic data; the energy-level lift is extracted as a term.",
                 trusted_base=["python ast", "hv.kpe", "inverse partners: C18.c (M/M_inv, C/C_inv), C18.d (synodic<->local), C08.c (forward o inverse = id)"])
+    # conversions that cache anything derived from the degree-dependent pipeline must key on / be invalidated with the degree
+    from . import c20
+    from .common import Relabel
+    c20._b_keyed_state(Relabel(chk, {"C20.b": "C09.a-cache"}), c20._sites(), only_classes={"_CenterManifoldDynamicsService"})
+    c20._e_invalidation(Relabel(chk, {"C20.e": "C09.a-cache"}), c20._sites(), only_classes={"_CenterManifoldDynamicsService"})
     _a_chains(chk)
     _a_series(chk)
     _a_configure(chk)
@@ -104,6 +109,7 @@ def _trace_chain(method, arg):
     ov = {"_solve_complex": stage("_solve_complex"), "_solve_real": stage("_solve_real"), "_coordrealmodal2local": stage("_coordrealmodal2local", 1),
           "_coordlocal2realmodal": stage("_coordlocal2realmodal", 1), "_evaluate_transform": evaluate}
     svc = SymObj(ClassRef(mod, cls), {"_point": point, "_mix_pairs": (1, 2), "_local2synodic": l2s, "_synodic2local": s2l,
+                                      "make_key": lambda *a: ("key",) + tuple(str(x) for x in a), "get_or_create": lambda key, factory: ip.apply(factory, [], {}),
                                       "pipeline": SymObj(None, {"get_lie_expansions": lie}, "pipeline"),
                                       "hamsys": SymObj(None, {"clmo": clmo, "clmo_H": clmo}, "hamsys"),
                                       "_restrict_to_center_manifold": lambda c: (trace.append({"stage": "restrict", "in": to_obj_array(c).copy(), "out": c, "tol": None, "mix": None}), c)[1]}, "svc")
